@@ -22,7 +22,7 @@ def obligations(tier):
 META = dict(
     level="model_checking",
     bounds={"quick": "every tree of the C03 space (accepted skeletons <= 3 heads + 65 construction programs incl. shared sub-items, empty containers, zero-chunk strings, 64-bit integers); pointer-checked twin on 14 trees with >= 3 nodes",
-            "thorough": "<= 4 heads; pointer-checked twin on 80 trees"},
+            "thorough": "<= 4 heads (all of S(3), every accepted 4-head sequence, every 4th rejected and every 16th still-open 4-head sequence); pointer-checked twin on 80 trees"},
     assumptions=["allocations succeed (refusal during copy is C06)"],
     outside=["trees with more nodes than the bound", "tags that were never given an item (not obtainable under the ownership rules)"],
     explanation="Independence is decided by pairwise address inequalities over the complete census of node and buffer addresses (concrete shapes => a few dozen pointer inequalities), and by releasing one tree and re-walking the other.",
